@@ -9,13 +9,17 @@ use crate::engine::Engine;
 pub struct C09Engine;
 pub static C09: C09Engine = C09Engine;
 
+/// C10: area histories through the API (E1) plus ELF load as a creation path (E4)
+pub struct C10Engine;
+pub static C10: C10Engine = C10Engine;
+
 /// C20: program-level determinism (E2) plus the per-form instruction part (E5)
 pub struct C20Engine;
 pub static C20: C20Engine = C20Engine;
 
 impl C20Engine {
-    fn parts(&self) -> [(&'static str, &'static dyn Engine); 3] {
-        [("e2", &crate::e2::E2), ("e5", &crate::e5::E5), ("e3", &crate::e3::E3)]
+    fn parts(&self) -> [(&'static str, &'static dyn Engine); 4] {
+        [("e2", &crate::e2::E2), ("e5", &crate::e5::E5), ("e3", &crate::e3::E3), ("e4", &crate::e4::E4)]
     }
     fn part_of(&self, tag: &str) -> &'static dyn Engine {
         self.parts().iter().find(|p| p.0 == tag).map(|p| p.1).unwrap_or(&crate::e2::E2)
@@ -24,7 +28,7 @@ impl C20Engine {
 
 impl Engine for C20Engine {
     fn name(&self) -> &'static str {
-        "E2 run-sim + E5 insn-sim + E3 sys-sim"
+        "E2 run-sim + E5 insn-sim + E3 sys-sim + E4 load-sim"
     }
     fn runs(&self, prop: &str, thorough: bool) -> u64 {
         self.parts().iter().map(|p| p.1.runs(prop, thorough)).sum()
@@ -134,5 +138,67 @@ impl Engine for C09Engine {
     }
     fn level(&self, _prop: &str) -> &'static str {
         "fault_enumeration"
+    }
+}
+
+impl C10Engine {
+    fn parts(&self) -> [(&'static str, &'static dyn Engine); 2] {
+        [("e1", &crate::e1::E1), ("e4", &crate::e4::E4)]
+    }
+    fn part_of(&self, tag: &str) -> &'static dyn Engine {
+        self.parts().iter().find(|p| p.0 == tag).map(|p| p.1).unwrap_or(&crate::e1::E1)
+    }
+}
+
+impl Engine for C10Engine {
+    fn name(&self) -> &'static str {
+        "E1 api-sim + E4 load-sim"
+    }
+    fn runs(&self, prop: &str, thorough: bool) -> u64 {
+        self.parts().iter().map(|p| p.1.runs(prop, thorough)).sum()
+    }
+    fn gen(&self, prop: &str, thorough: bool, seed: u64, idx: u64) -> Value {
+        let mut base = 0;
+        for (tag, e) in self.parts() {
+            let n = e.runs(prop, thorough);
+            if idx < base + n {
+                return json!({"e": tag, "sc": e.gen(prop, thorough, seed, idx - base)});
+            }
+            base += n;
+        }
+        json!({"e": "e1", "sc": crate::e1::E1.gen(prop, thorough, seed, 0)})
+    }
+    fn exec(&self, prop: &str, sc: &Value, ctx: &mut Ctx) {
+        self.part_of(sc["e"].as_str().unwrap_or("e1")).exec(prop, &sc["sc"], ctx)
+    }
+    fn shrink(&self, prop: &str, sc: &Value) -> Vec<Value> {
+        let e = sc["e"].clone();
+        self.part_of(e.as_str().unwrap_or("e1")).shrink(prop, &sc["sc"]).into_iter().map(|x| json!({"e": e.clone(), "sc": x})).collect()
+    }
+    fn crash_context(&self, prop: &str, sc: &Value) -> String {
+        self.part_of(sc["e"].as_str().unwrap_or("e1")).crash_context(prop, &sc["sc"])
+    }
+    fn components(&self) -> (Vec<&'static str>, Vec<&'static str>) {
+        let mut a: Vec<&'static str> = Vec::new();
+        let mut b: Vec<&'static str> = Vec::new();
+        for (_, e) in self.parts() {
+            let (x, y) = e.components();
+            a.extend(x);
+            b.extend(y);
+        }
+        a.sort();
+        a.dedup();
+        b.sort();
+        b.dedup();
+        (a, b)
+    }
+    fn rule(&self, prop: &str) -> String {
+        self.parts().iter().map(|p| p.1.rule(prop)).collect::<Vec<_>>().join(" || ")
+    }
+    fn assumptions(&self, prop: &str) -> Vec<String> {
+        self.parts().iter().flat_map(|p| p.1.assumptions(prop)).collect()
+    }
+    fn level(&self, _prop: &str) -> &'static str {
+        "exploration"
     }
 }
